@@ -1,6 +1,7 @@
 """C12 — brand isolation (DESIGN.md §4 C12): variance / impl / predicate facts from the type-checked
 program, re-branding inventory with dominance, and the escape corpus (compile-fail witnesses with twins)."""
 from gcv import facts, model, cfg, witness, rules_roots
+from gcv.props import common
 from gcv.model import norm
 
 BRANDED = ["gc::Gc", "gc_weak::GcWeak", "context::Mutation", "context::Finalization", "dynamic_roots::DynamicRootSet",
@@ -34,7 +35,8 @@ def run(chk, tier):
                 "interpreted from MIR with contains() answered both ways, hand out the re-branded pointer exactly when "
                 "it said yes, and contains(), interpreted on terms, is the identity comparison of the set's Rc with the "
                 "handle's Weak slot table; (4) no exported function returns a branded type at "
-                "'static; (5) the escape corpus: each violating client program is rejected by rustc for the "
+                "'static, and every exported macro whose expansion contains `unsafe` (static_collect!, dyn_collect!, "
+                "unsize!; the Write-related ones belong to C13) is in the reviewed table; (5) the escape corpus: each violating client program is rejected by rustc for the "
                 "expected reason and its twin (differing only in the offending lines) compiles.")
     chk.not_decided += ["soundness of rustc's lifetime checking (trusted)", "programs using unsafe (outside the property)"]
     chk.extra["feature_configs"] = configs
@@ -45,6 +47,7 @@ def run(chk, tier):
         collect_impl_lifetimes(chk, prog, c)
         rebrand(chk, prog, c)
         static_returns(chk, prog, c)
+        common.unsafe_macros(chk, prog, "C12", c)
     res = witness.report(chk, "C12", rule="escape-corpus", floor=80, tier=tier)
     witness.report(chk, "C03", rule="exclusive-access-witness", floor=5, tier=tier)
 
